@@ -341,6 +341,20 @@ def step (c : Cl) (line : String) : Cl × String :=
     (match k.toNat? >>= fun k => c.bgHalt.lookup k with
      | some id => haltOp { c with bgHalt := c.bgHalt.filter (fun e => some e.1 ≠ k.toNat?) } k id
      | none => (c, "bad-op"))
+  -- the release is interrupted (the request's context is cancelled) while the node's recovery waits
+  -- for the write lock behind an application connection: nothing is released, here or on the primary
+  | ["unhalt-intr", k, id] =>
+    (match k.toNat? >>= fun k => c.nodes[k]?.map fun n => (k, n), id.toInt? with
+     | some (k', n), some id' =>
+       if !n.up || !n.eng.hasDB then (c, "bad-op") else
+       if n.eng.remoteHalt ∧ n.remoteId = some id' then
+         -- the recovery waits for the write lock behind an application connection: interrupted there
+         if (n.eng.locks.tryAcquireWriteLock n.eng.walMode).2.isNone then (c, "eintr") else
+         -- recovered and the local reference dropped; the request to the primary was never sent
+         (c.setNode k' { n with eng := { recoverEng n.eng with remoteHalt := false }, remoteId := none }, "eintr")
+       else if c.holder = some k' then (c, "ok")
+       else (c, "eintr")
+     | _, _ => (c, "bad-op"))
   | ["unhalt", k, id] =>
     (match k.toNat? >>= fun k => c.nodes[k]?.map fun n => (k, n), id.toInt? with
      | some (k, n), some id =>
